@@ -36,15 +36,15 @@ parser { foreach { /\\d+/; } do { k = [k * 10 + ($last - '0')]; n = [n + 1]; } "
     ("feat-finish-codes", [], """finishcode A, B; out int m = 0;
 parser { case { "a" -> { finish A; } "b" -> { m = 1; finish B; } "c" -> { finish; } else -> { m = [m + 1]; } } "z"; }"""),
     ("feat-optional-chain", [], """hook h; hook g; out int{unsigned, size 1} n = 0;
-parser { "a"; optional { "b"; h(); } optional { /c+/; n = [n + 1]; } g(); "d"; }"""),
+parser { "a"; optional { "b"; h(); } optional { /c+/; "e"; n = [n + 1]; } g(); "d"; }"""),
     ("feat-casei-bin", [], """out str[8] t;
 parser { "hello"i; t += "0a ff 00"b; b/61 [62-63]+ (00|ff)/; }"""),
     ("feat-yield-accepting", ["-fyield-support"], """yieldcode T, V; hook h; out int m = 0;
 parser { case { "a" -> { yield T; } "c" -> { m = 1; } /d+/ -> { yield V; } } optional { "b"; h(); } optional { "e"; } }"""),
     ("feat-unterminated", [], """out unterminated str[4] tag = "ab"; out int n = 5; out unterminated str[2] u; out int{unsigned, size 1} z = 165; out str[3] s = "x"; out int{unsigned, size 1} y = 90;
-parser { case { "1" -> { tag = "wxyz"; } "2" -> { tag = "q"; u = "hi"; } "3" -> { s = "ok"; u += "a"; } else -> { tag += /[a-c]+/; } } u += /./; "!"; }"""),
-    ("feat-defaults-dyn", ["-fallocate-str-space-dynamic"], """out str[5] a = "abcd"; out str[3] b; out bool f = true; out enum{X,Y,Z} e = Z; out int{size 2} k = -7; hook h;
-parser { h(); b += /[xy]+/; a = "z"; delete b; b += [k + 72]; if f && e == Z { a += "!"; } h(); }"""),
+parser { case { "1" -> { tag = "wxyz"; } "2" -> { tag = "q"; u = "hi"; } "3" -> { s = "ok"; u += "a"; } else -> { tag += /[a-c]+/; ";"; } } u += /./; "!"; }"""),
+    ("feat-defaults-dyn", ["-fallocate-str-space-dynamic"], """out str[5] a = "abcd"; out str[3] b; out bool f = true; out enum{X,Y,Z} e; out int{size 2} k = -7; hook h;
+parser { h(); b += /[xy]+/; ","; a = "z"; delete b; b += [k + 72]; e = Z; if f && e == Z { a += "!"; } h(); }"""),
     ("feat-signed", [], """out int{signed, size 1} a = -1; out int{signed, size 2} b = 0; out int{size 8} c = 0; out int{unsigned, size 4} d = 0;
 parser { foreach { /./ ; } do { a = [a - 100]; b = [b + a * 2]; d = [d - 1]; c = [c * 3 + d]; } }"""),
 ]
